@@ -119,7 +119,7 @@ func (s *schemaSliceValidator) Validate(data interface{}) *Result {
 			result.AddErrors(arrayDoesNotAllowAdditionalItemsMsg())
 		}
 		if s.AdditionalItems.Schema != nil {
-			for i := itemsSize; i < size-itemsSize+1; i++ {
+			for i := itemsSize; i < size; i++ {
 				validator := newSchemaValidator(s.AdditionalItems.Schema, s.Root, fmt.Sprintf("%s.%d", s.Path, i), s.KnownFormats, s.Options)
 				result.mergeForSlice(val, i, validator.Validate(val.Index(i).Interface()))
 			}
